@@ -506,6 +506,9 @@ def _elab_block(ast, b, model):
         for s, i in zip(subs, infos):
             specs.extend(i["crossings"])
             mins.extend(i["mins"])
+            if i["mins"] and i["crossings"] and i["T"] != max(c.pre + c.size for c in i["crossings"]):
+                # what "one repetition" of a block is whose own MinimumTrials stretches it is not documented
+                model.gaps.append("inner-mintrials-under-combinator")
             empty = empty or i["empty"]
             # constraints of the sub-block: scoped to its repetitions (B.6), unless already scoped deeper
             sp, ss = i["p"], i["T"] - i["p"]
@@ -589,6 +592,14 @@ def _doc_gaps(ast, model):
             f = F[con.fid]
             if f.kind == "derived" and f.stride > 1 and con.kind in dast.RUN_KINDS:
                 model.gaps.append("run-constraint-on-strided-factor")
+        if con.kind == "pin" and con.windows is not None and model.T is not None:
+            inr = []
+            for (a, b) in con_windows(model, con):
+                j = a + con.index if con.index >= 0 else b + con.index
+                inr.append(a <= j < b)
+            if any(inr) and not all(inr):
+                # an index that exists in the full repetitions but not in the cut-short last one
+                model.gaps.append("pin-out-of-range-in-partial-repetition")
         if con.kind == "sequential":
             f = F[con.fid]
             fpre = max([c.start for c in model.crossings if con.fid in c.fids] + [0])
